@@ -13,7 +13,7 @@
     [C09_remove_unconditional_refuted] (DESIGN F10, also for reset tokens) and
     [C09_connect_leak_refuted] (found here). *)
 From QV Require Import Lib.Tac Lib.Corr Model.Routing Proofs.RoutingMap Proofs.RoutingInv
-  Proofs.RoutingProofs.
+  Proofs.RoutingProofs Proofs.RoutingFrame.
 Open Scope Z_scope.
 
 (** [connection_ids[cid] = ch] implies [ch] is live and the CID is in the [loc_cids] of the slot's
@@ -97,25 +97,34 @@ Theorem C09_connect_leak_refuted :
 Proof. split; [exact (proj2 leak_refuted) | exact (proj2 leak_fixed)]. Qed.
 Print Assumptions C09_connect_leak_refuted.
 
-(** Statements kept at full strength but NOT proved in this round. *)
+(** [isolation] as a frame property.  [label s op] is the connection a step creates (connect, accept:
+    the vacant slab slot), changes (NeedIdentifiers, RetireConnectionId, ResetToken) or removes
+    (Drained); datagrams, refuse and ignore carry no label.  A step labelled [a] leaves every other
+    connection [b] alone: [b]'s record is unchanged, exactly the same non-empty CIDs route to [b]
+    (the entry for the empty CID is never consulted by [get]), and [b] gains no initial-DCID, tuple
+    or reset-token entry. *)
+Theorem C09_isolation_partial : forall i s op s' o b,
+  state_after i = Some s -> step s op = Some (s', o) -> label s op <> Some b ->
+  lookup [b] (s_conns s') = lookup [b] (s_conns s) /\
+  (forall k, k <> [] -> (lookup k (s_ids s') = Some b <-> lookup k (s_ids s) = Some b)) /\
+  (forall k, lookup k (s_init s') = Some (RConn b) -> lookup k (s_init s) = Some (RConn b)) /\
+  (forall k, lookup k (s_in s') = Some b -> lookup k (s_in s) = Some b) /\
+  (forall k, lookup k (s_out s') = Some b -> lookup k (s_out s) = Some b) /\
+  (forall k, lookup k (s_tok s') = Some b -> lookup k (s_tok s) = Some b).
+Proof.
+  intros i s op s' o b R H N. apply reachable_inv in R.
+  destruct (step_frame s op s' o b R H N) as [A B C D E F]. repeat split; auto; apply B; auto.
+Qed.
+Print Assumptions C09_isolation_partial.
 
-(** Label of a step: the connection it creates, changes or removes. *)
-Definition label (s : st) (op : list Z) : option Z :=
-  match op with
-  | 1 :: _ => Some (vacant_key s)
-  | 3 :: _ => Some (vacant_key s)
-  | 5 :: ch :: _ => Some ch
-  | 6 :: ch :: _ => Some ch
-  | 7 :: ch :: _ => Some ch
-  | 8 :: ch :: _ => Some ch
-  | _ => None
-  end.
+(** Statements kept at full strength but NOT proved. *)
 
-(** [isolation]: a step labelled [a] leaves the record and every map entry of any other
-    connection [b] unchanged.  For the tuple and token maps this needs the step's precondition
-    (the new connection's tuple / the registered token is not currently held by [b]); without it the
-    younger claimant takes the entry over — by design after the repair, see the oracle.
-    Not proved: needs one more pass over the operations (frame lemmas). *)
+(** Missing from [C09_isolation_partial]: that [b] also LOSES no entry.  For [connection_ids] this
+    is proved (the equivalence above); for [connection_ids_initial] it needs the Incoming
+    bookkeeping invariant (an accepted/refused Incoming's DCID is not some connection's initial
+    DCID), not carried by [Inv]; for the tuple and token maps it holds only under the step's
+    precondition (the tuple claimed / token registered by [a] is not currently held by [b]) --
+    otherwise the younger claimant takes the entry over, by design after the repair. *)
 Definition C09_isolation_full : Prop :=
   forall i s op s' o b,
     state_after i = Some s -> step s op = Some (s', o) -> label s op <> Some b ->
@@ -147,3 +156,10 @@ Example C09_example :
   oracle example_history (run example_history) = true /\
   exists s, state_after example_history = Some s /\ size (s_conns s) = 2 /\ size (s_ids s) = 3.
 Proof. destruct example_run as [_ [A B]]. split; [exact A | exact B]. Qed.
+
+(** Regression for the ownership ledger (seed sweep): a short-lived accepted connection (first
+    packet rejected) is the last claimant of its tuple; the older owner does not regain it. *)
+Example C09_takeover_example :
+  run takeover_history = [[0]; [2; 0]; [0; 0]; [1; 0]; [2; 1]; [1; 3]; [0; 0]] /\
+  oracle takeover_history (run takeover_history) = true.
+Proof. exact takeover_run. Qed.
